@@ -87,10 +87,10 @@ def build_scene(d, rng):
     dh = DrillholeGroup.create(ws, name="dh", parent=grp)
     a = Points.create(ws, vertices=np.arange(18, dtype=float).reshape(6, 3), parent=grp, name="A")
     da = a.add_data({"a1": {"values": np.arange(6.0)}, "a2": {"values": np.arange(6.0) * 2}})
-    a.add_data_to_group(da, "pgA")
+    pga = a.add_data_to_group(da, "pgA")
     b = Curve.create(ws, vertices=np.arange(12, dtype=float).reshape(4, 3), name="B")
     db = b.add_data({"b1": {"values": np.arange(4.0)}})
-    ids = {"grp": grp.uid, "dh": dh.uid, "A": a.uid, "B": b.uid, "a1": da[0].uid, "a2": da[1].uid, "b1": db.uid}
+    ids = {"grp": grp.uid, "dh": dh.uid, "A": a.uid, "B": b.uid, "a1": da[0].uid, "a2": da[1].uid, "b1": db.uid, "pgA": pga.uid}
     return ws, path, ids
 
 
@@ -134,7 +134,12 @@ def make_form(kind, rng, ids, name, ui, rec):
         pkey = rng.choice(["A", "B"])
         ui[pname] = templates.object_parameter(value=str(ids[pkey]), label=pname)
         child = {"A": rng.choice(["a1", "a2"]), "B": "b1"}[pkey]
-        if kind == "data":
+        if kind == "data" and pkey == "A" and rng.random() < 0.4:
+            # the form selects a property group of the parent object
+            form = templates.data_parameter(parent=pname, data_group_type="Multi-element", value=str(ids["pgA"]), optional=opt, label=name)
+            desc.append("property-group")
+            rec.see("property-group-forms")
+        elif kind == "data":
             form = templates.data_parameter(parent=pname, value=str(ids[child]), optional=opt, label=name)
         elif kind == "data_value":
             if rng.random() < 0.5:
